@@ -1,6 +1,7 @@
 #!/bin/bash
 # usage: tools_try.sh <patch.diff> <ID>...   apply patch to /repo, run checks, revert
-P=$1; shift
-git -C /repo apply "$(realpath $P)" || { echo "patch failed"; exit 3; }
-for id in "$@"; do ./check $id 2>&1 | cut -c1-700 | grep -v "^KNOWN" ; echo "exit=${PIPESTATUS[0]}"; done
-git -C /repo checkout -- . ; git -C /repo status --short | head
+P=$(realpath $1); shift
+git -C /repo apply "$P" 2>/dev/null || git -C /repo apply --3way "$P" 2>&1 | tail -2
+if [ -z "$(git -C /repo status --short)" ]; then echo "PATCH FAILED TO APPLY"; exit 3; fi
+for id in "$@"; do ./check $id > /tmp/try.out 2>&1; rc=$?; grep -c "^VIOLATION" /tmp/try.out | sed 's/^/violations: /'; grep "^rule=" /tmp/try.out | cut -c1-${W:-420} | head -${N:-4}; tail -1 /tmp/try.out; echo "exit=$rc"; done
+git -C /repo reset -q; git -C /repo checkout -- . ; git -C /repo status --short | head
